@@ -108,7 +108,14 @@ package parser
 // the newline token having consumed exactly that character (so a blank line is
 // a command of its own and the call that meets it reads no further).
 //@ spec func atnewline(l *lexer) bool = len(l.aliases) == 0 && l.b == "" && len(l.word) == 0 && 0 <= srcpos() && srcpos() < srclen() && srcrune(srcpos()) == '\n'
+// A word that is a single literal of decimal digits, met directly before a
+// redirection operator, is an IO_NUMBER (however it came to be pending: also
+// across a line continuation).
+//@ spec func alldigits(s string) bool = forall j: 0 <= j < len(s) ==> '0' <= s[j] && s[j] <= '9'
 //@ func (*lexer).scanRaw
+//@   site BEFOREREDIR = call parser.(*lexer).unread#2
+//@   loop "for _, r := range w.Value" invariant[C09] digits-so-far: forall j: 0 <= j && j < rangepos() ==> '0' <= w.Value[j] && w.Value[j] <= '9'
+//@   ensures[C09] digits-before-a-redirection-are-an-io-number: site(BEFOREREDIR) && len(l.word) == 1 && l.word[0] is *ast.Lit && alldigits(l.word[0].(*ast.Lit).Value) ==> result == IO_NUMBER
 //@   loop "for" invariant[C07] nothing-consumed-before-the-newline: old(atnewline(l)) ==> srcpos() == old(srcpos()) && len(l.aliases) == 0 && l.b == "" && len(l.word) == 0
 //@   ensures[C07] newline-is-a-token-of-its-own: old(atnewline(l)) ==> (result == '\n' && srcpos() == old(srcpos()) + 1) || result == -1
 //@   ensures result != NAME && result != ASSIGNMENT_WORD
